@@ -53,12 +53,18 @@ type c08Deviant struct {
 	net       *Net
 	deviated  int // network sequence number at the moment of the deviation (0: not yet)
 	fakeCount int
+	// onDeviate is called once, at the moment of the deviation (storage faults
+	// that coincide with the out-of-order request)
+	onDeviate func()
 }
 
 func (t *c08Deviant) Send(ctx context.Context, msgType uint8, msg any, sess kex.Session) (uint8, io.ReadCloser, error) {
 	fake := func(rt uint8, v any) (uint8, io.ReadCloser, error) {
 		if t.deviated == 0 {
 			t.deviated = t.net.Seq()
+			if t.onDeviate != nil {
+				t.onDeviate()
+			}
 		}
 		t.fakeCount++
 		b, _ := cbor.Marshal(v)
@@ -150,6 +156,13 @@ func (p *c08) Plan(tier string, seed uint64, i int) any {
 		pl.Deviant = []string{"skip66", "done-early:0", "done-early:1", "done-early:2"}[j%4]
 		return pl
 	}
+	if i < 2*sweep+40+48+2*len(c08DoneReads) {
+		// the same deviations while the owner's state backend fails a read
+		j := i - 2*sweep - 40 - 48
+		pl.Devices = 1 // alone, so that the failing reads are those of the deviating session
+		pl.Deviant = []string{"done-early:0", "skip66"}[j%2] + "+fail:" + c08DoneReads[j/2]
+		return pl
+	}
 	n := 1 + r.IntN(12)
 	for k := 0; k < n; k++ {
 		in := C08Inject{After: r.IntN(16 * pl.Devices), Pick: r.IntN(1000), Token: c08Tokens[r.IntN(len(c08Tokens))]}
@@ -193,6 +206,9 @@ func (p *c08) Shrink(plan any) []any {
 	return out
 }
 
+// state reads made while TO2.Done / DeviceServiceInfo are handled
+var c08DoneReads = []string{"Devmod", "MTU", "GUID", "Voucher", "XSession", "ProveDeviceNonce", "SetupDeviceNonce", "ReplacementHmac", "RvInfo", "ReplacementGUID", "OwnerKey"}
+
 var c08Forbidden = map[string]bool{"AddVoucher": true, "SetRVBlob": true, "ReplaceVoucher": true, "module.start": true, "module.HandleInfo": true, "module.ProduceInfo": true}
 
 func stripBearer(t string) string { return strings.TrimPrefix(t, "Bearer ") }
@@ -227,7 +243,16 @@ func (p *c08) Exec(env *Env, plan any) {
 
 	var deviant *c08Deviant
 	if pl.Deviant != "" {
-		deviant = &c08Deviant{mode: pl.Deviant, net: s.Net}
+		mode, faultMethod, _ := strings.Cut(pl.Deviant, "+fail:")
+		deviant = &c08Deviant{mode: mode, net: s.Net}
+		if faultMethod != "" && o1.Sim != nil {
+			// the owner's state backend fails its next reads of that kind, i.e.
+			// those made while the out-of-order request is handled
+			deviant.onDeviate = func() {
+				o1.Sim.FailNext[faultMethod] = 2
+				o.Fault("store-error:" + faultMethod)
+			}
+		}
 	}
 	results := make([]string, pl.Devices)
 	for d := 0; d < pl.Devices; d++ {
@@ -637,7 +662,7 @@ func (p *c08) Exec(env *Env, plan any) {
 	// refused
 	if deviant != nil && deviant.deviated > 0 {
 		o.Nontrivial = true
-		o.Fault("participant-" + strings.SplitN(pl.Deviant, ":", 2)[0])
+		o.Fault("participant-" + strings.SplitN(strings.SplitN(pl.Deviant, "+", 2)[0], ":", 2)[0])
 		for _, ev := range s.Net.Log {
 			if ev.Phase != "req" || ev.From != "dev1" || ev.Seq <= deviant.deviated || ev.To != "owner1" {
 				continue
@@ -675,7 +700,7 @@ func (p *c08) Exec(env *Env, plan any) {
 			ok++
 		}
 	}
-	if deviant != nil && ok < pl.Devices-1 {
+	if deviant != nil && deviant.onDeviate == nil && ok < pl.Devices-1 {
 		o.Violate("C08", "honest-run-must-succeed", pl.Key, "the devices that did not deviate ended %v", results)
 	}
 	if len(injected) == 0 && deviant == nil && ok != pl.Devices {
